@@ -520,7 +520,11 @@ class Report(object):
             'wall_s': round(time.time() - self.t0, 2),
             'violations': int(n_unlisted),
         }
-        path = os.path.join(EVIDENCE_DIR, self.prop + '.json')
+        # evidence/<id>.json describes runs against /repo itself; a run against another tree (a seeded change in a
+        # scratch worktree) writes its evidence under .work/ so that the registered evidence is never overwritten
+        edir = EVIDENCE_DIR if repo_path() == '/repo' else os.path.join(WORK_ROOT, 'evidence_other_tree')
+        os.makedirs(edir, exist_ok=True)
+        path = os.path.join(edir, self.prop + '.json')
         tmp = path + '.tmp'
         with open(tmp, 'w') as f:
             json.dump(ev, f, indent=1, default=str)
